@@ -556,6 +556,12 @@ def run(ctx):
             continue
         for kind, db, i, node in f.defs().get(0, []):
             if kind != "stmt":
+                # `self.src.get(range)` as the returned value: the checked form of the same slice
+                cal = callee_of(node) if kind == "call" else None
+                if cal and re.search(r"str>::get$", cal) and node.get("args") and "src" in expr_str(f.expr(node["args"][0], 6), 200):
+                    nret += 1
+                    ctx.instance(1)
+                    ctx.oblig(True, {"returned by": short(n), "value": "src.get(span)"}, "the slice src[span] itself")
                 continue
             e = f.rvalue_expr(node["r"], 12)
             if not (e[0] == "agg" and e[1][0] == "adt" and len(e[1]) > 2 and e[1][2] == "Some" and len(e) > 2 and e[2]):
